@@ -6,7 +6,7 @@ Sections
             the outputs dict x n x weight vector x value matrix from a small grid (negatives, ties).  Oracle:
             samples keys / samples_array columns in parameter_names order and equal to the given columns, means ==
             exact-rational weighted averages, CI / quantiles in the C13 reference admissible set.
-  bolfi   : (P) BolfiSample from chains with distinct integers in every cell: chains x length x warm-up x parameter
+  bolfi   : (P) BolfiSample (and BOLFIRESample) from chains with distinct integers in every cell: chains x length x warm-up x parameter
             orders x cell numbering x memory layout.  Oracle: chain-by-chain concatenation of chain[warmup:]
             written with plain Python loops.
   history : (H) every operation sequence up to depth d over {save pkl, save json, save csv, query} on Sample /
@@ -322,7 +322,7 @@ def _sample_cases(q):
                 elif p == 2:
                     spec = ('pat', 5 if q else 7)
                 else:
-                    spec = ('pat', 3 if q else (4 if p == 3 else 2))
+                    spec = ('pat', 3 if q else (4 if p == 3 else 3))
                 for order in orders:
                     if q and dtype == 'i8' and order == 'rsorted':
                         continue
@@ -376,12 +376,13 @@ def _bolfi_input(m, L, p, numbering, layout):
 
 @guarded('C16')
 def run_bolfi(case):
-    from elfi.methods.results import BolfiSample
+    from elfi.methods import results
     m, L, wu, names = case['m'], case['len'], case['warmup'], list(case['names'])
     p = len(names)
     cells, arr = _bolfi_input(m, L, p, case['numbering'], case['layout'])
-    b = BolfiSample(method_name='BOLFI', chains=arr, parameter_names=list(names), warmup=wu,
-                    threshold=0.25, n_sim=11, seed=3)
+    bolfire = case.get('cls') == 'BOLFIRESample'      # same contract, separate constructor
+    cls = results.BOLFIRESample if bolfire else results.BolfiSample
+    b = cls(method_name='BOLFI', chains=arr, parameter_names=list(names), warmup=wu, threshold=0.25, n_sim=11, seed=3)
     exp = {k: [cells[c][t][j] for c in range(m) for t in range(wu, L)] for j, k in enumerate(names)}
     keys = list(b.samples.keys())
     if keys != names:
@@ -405,8 +406,9 @@ def run_bolfi(case):
         return bad('C16:bolfi:' + v[0], v[1])
     if b.n_samples != m * (L - wu):
         return bad('C16:bolfi:n_samples', {'got': b.n_samples, 'expected': m * (L - wu)})
-    if b.n_chains != m or b.warmup != wu or not np.array_equal(np.asarray(b.chains), np.array(cells)):
-        return bad('C16:bolfi:meta', {'n_chains': b.n_chains, 'warmup': b.warmup})
+    if b.n_chains != m or not np.array_equal(np.asarray(b.chains), np.array(cells)) or \
+            (not bolfire and b.warmup != wu):       # BOLFIRESample stores the warmed-up array under `warmup`: not judged
+        return bad('C16:bolfi:meta', {'n_chains': b.n_chains, 'warmup': _lst(b.warmup)})
     return ok(outcome=digest([exp[k] for k in names]), warmup_zero=int(wu == 0), multi_chain=int(m > 1))
 
 
@@ -420,6 +422,8 @@ def _bolfi_cases(q):
                         for layout in (('C', 'view') if q else ('C', 'F', 'T', 'view')):
                             cases.append({'kind': 'bolfi', 'm': m, 'len': L, 'warmup': wu, 'names': names,
                                           'numbering': numbering, 'layout': layout})
+                            if layout == 'C' or not q:
+                                cases.append(dict(cases[-1], cls='BOLFIRESample'))
     return cases
 
 
@@ -618,6 +622,9 @@ def _run_history(obj, truth, ops, tmp):
     """Apply ops; -> (violation or None, set of state digests)."""
     q0 = _query(obj, catch=False)
     states = {_state(obj)}
+    for fmt in ('pkl', 'csv', 'json'):      # no stale file of an earlier case (later saves of a history overwrite)
+        if os.path.exists(tmp.path('s.' + fmt)):
+            os.remove(tmp.path('s.' + fmt))
     for i, op in enumerate(ops):
         if op != 'query':
             path = tmp.path('s.' + op)
@@ -663,7 +670,7 @@ def _hist_objects(q):
     objs = []
     for names in (['a'], ['b', 'a'], ['c', 'a', 'b']) if q else (['a'], ['a', 'b'], ['b', 'a'], ['c', 'a', 'b'],
                                                                 ['t10', 't2']):
-        for n in (1, 3) if q else (1, 4):
+        for n in (1, 3) if q else (1, 2, 4):
             for w in ('none', 'frac') if q else ('none', 'skew', 'zero', 'frac'):
                 for dtype, meta in (('f8', 'np'), ('i8', 'py')) if q else (('f8', 'np'), ('f8', 'py'), ('i8', 'np')):
                     objs.append({'cls': 'Sample', 'names': names, 'n': n, 'w': w, 'dtype': dtype, 'meta': meta,
@@ -725,6 +732,8 @@ def run_values(case):
         for fmt in ('csv', 'json', 'pkl'):
             s, _ = _make_sample(names, cols, 'sorted', None, dtype, disc=False, n_sim=1)
             path = tmp.path('s.' + fmt)
+            if os.path.exists(path):
+                os.remove(path)
             s.save(path)
             if fmt == 'pkl':
                 with open(path, 'rb') as f:
@@ -876,8 +885,8 @@ def _diag_cases(q, seed):
             add('int', 1, n, None, chunk=81)
             add('mix', 1, n, None if n <= 6 else 3000, chunk=100)
         add('int', 2, 4, None, chunk=1)
-        add('int', 2, 5, 150, chunk=1)
-        add('mix', 2, 4, 150, chunk=1)
+        add('int', 2, 5, None, chunk=1)
+        add('mix', 2, 4, None, chunk=1)
         add('int', 3, 4, 27, chunk=1)
         add('int', 4, 4, 6, chunk=1)
         for n in (5, 6, 7, 8):
